@@ -257,6 +257,9 @@ for FullSync<'a, ItemType, OgreAllocatorType, BUFFER_SIZE, MAX_STREAMS> {
 
     #[inline(always)]
     fn drop_resources(&self, stream_id: u32) {
+        // discards whatever this listener left unconsumed: the `stream_id` (and its queue) will be handed to a future listener,
+        // which must only see events sent during its own lifetime -- and the payloads' storage gets released right away
+        while self.consume(stream_id).is_some() {}
         self.streams_manager.report_stream_dropped(stream_id);
     }
 }
